@@ -1,2 +1,1074 @@
-(* StaticEquiv2 — reserved. *)
+(* StaticEquiv2 — C01, M1 = S, stage 2 (named parameters, backtracking).
+   M2 = structurally recursive DFS matcher over the tree; M1 = M2 (the explicit
+   skipped-node stack is the DFS continuation); M2 = S by induction on the tree.
+   Owner: proof agent p-equiv. *)
 From FoxBase Require Import Bytes.
+From FoxRoute Require Import Node Lookup Spec SpecFacts Tree Corr StaticEquiv.
+Open Scope char_scope.
+
+(* ------------------------------------------------------------------ *)
+(* keys as token lists                                                  *)
+(* ------------------------------------------------------------------ *)
+Definition render_tok (t : token) : bytes :=
+  match t with
+  | TStatic c => [c]
+  | TParam n => "{" :: n ++ ["}"]
+  | TCatch n => "*" :: "{" :: n ++ ["}"]
+  end.
+Definition render (ts : list token) : bytes := flat_map render_tok ts.
+
+Definition name_ok (n : bytes) : bool := negb (existsb (Ascii.eqb "}") n).
+
+(* stage 2 tokens: static bytes other than '{' '*', and named parameters *)
+Definition ptok_ok (t : token) : bool :=
+  match t with TStatic c => sbyte c | TParam n => name_ok n | TCatch _ => false end.
+
+Lemma render_app a b : render (a ++ b) = render a ++ render b.
+Proof. unfold render. apply flat_map_app. Qed.
+
+Lemma render_tok_nonnil t : render_tok t <> [].
+Proof. destruct t; simpl; discriminate. Qed.
+
+Lemma render_nil kt : render kt = [] -> kt = [].
+Proof.
+  destruct kt as [|t kt]; auto. simpl. intros H. apply app_eq_nil in H. destruct H as [H _].
+  exfalso. eapply render_tok_nonnil; eauto.
+Qed.
+
+(* ---- parse_wildcard on a rendered key ---- *)
+Lemma pw_name : forall nm rest pos acc st, (st = PwParam \/ st = PwCatch) -> name_ok nm = true ->
+  parse_wildcard_go (nm ++ "}" :: rest) pos st acc =
+  {| pkey := rev acc ++ nm;
+     pend := match rest with [] => None | _ => Some (S (pos + List.length nm)) end;
+     pcatch := match st with PwCatch => true | _ => false end |}
+  :: parse_wildcard_go rest (S (pos + List.length nm)) PwDefault [].
+Proof.
+  induction nm as [|c nm IH]; intros rest pos acc st Hst Hok.
+  - simpl. rewrite app_nil_r, Nat.add_0_r. destruct Hst as [-> | ->]; reflexivity.
+  - unfold name_ok in Hok. simpl in Hok. apply negb_true_iff in Hok. apply orb_false_elim in Hok.
+    destruct Hok as [Hc Hok].
+    assert (Ascii.eqb c "}" = false) as Hc' by (rewrite Ascii.eqb_sym; exact Hc).
+    assert (name_ok nm = true) as Hok' by (unfold name_ok; rewrite Hok; reflexivity).
+    specialize (IH rest (S pos) (c :: acc) st Hst Hok').
+    simpl app. destruct Hst as [-> | ->]; cbn [parse_wildcard_go]; rewrite Hc'; rewrite IH;
+      simpl; rewrite <- app_assoc; simpl; replace (pos + S (List.length nm)) with (S (pos + List.length nm)) by lia;
+      reflexivity.
+Qed.
+
+Fixpoint pw_spec (kt : list token) (pos : nat) : list param :=
+  match kt with
+  | [] => []
+  | TStatic _ :: r => pw_spec r (S pos)
+  | TParam nm :: r =>
+      {| pkey := nm; pend := match r with [] => None | _ => Some (pos + List.length nm + 2) end; pcatch := false |}
+      :: pw_spec r (pos + List.length nm + 2)
+  | TCatch nm :: r =>
+      {| pkey := nm; pend := match r with [] => None | _ => Some (pos + List.length nm + 3) end; pcatch := true |}
+      :: pw_spec r (pos + List.length nm + 3)
+  end.
+
+Definition tok_ok (t : token) : bool :=
+  match t with TStatic c => sbyte c | TParam n => name_ok n | TCatch n => name_ok n end.
+
+Lemma ptok_tok t : ptok_ok t = true -> tok_ok t = true.
+Proof. destruct t; simpl; auto; discriminate. Qed.
+
+Lemma pw_render : forall kt pos, forallb tok_ok kt = true ->
+  parse_wildcard_go (render kt) pos PwDefault [] = pw_spec kt pos.
+Proof.
+  induction kt as [|t kt IH]; intros pos Hok; [reflexivity|].
+  simpl in Hok. apply andb_prop in Hok. destruct Hok as [Ht Hok].
+  destruct t as [c|nm|nm]; simpl in Ht.
+  - unfold sbyte in Ht. apply andb_prop in Ht. destruct Ht as [H1 H2]. apply negb_true_iff in H1, H2.
+    simpl. rewrite H2, H1. apply IH; auto.
+  - change (render (TParam nm :: kt)) with ("{" :: (nm ++ ["}"]) ++ render kt). rewrite <- app_assoc.
+    cbn [parse_wildcard_go]. cbn [Ascii.eqb Bool.eqb andb app].
+    rewrite pw_name by auto. simpl. rewrite IH by auto.
+    replace (S (S (pos + List.length nm))) with (pos + List.length nm + 2) by lia.
+    f_equal. f_equal. destruct kt as [|t' kt]; [reflexivity|].
+    destruct (render (t' :: kt)) eqn:E; [apply render_nil in E; discriminate|reflexivity].
+  - change (render (TCatch nm :: kt)) with ("*" :: "{" :: (nm ++ ["}"]) ++ render kt). rewrite <- app_assoc.
+    cbn [parse_wildcard_go]. cbn [Ascii.eqb Bool.eqb andb app].
+    rewrite pw_name by auto. simpl. rewrite IH by auto.
+    replace (S (S (S (pos + List.length nm)))) with (pos + List.length nm + 3) by lia.
+    f_equal. f_equal. destruct kt as [|t' kt]; [reflexivity|].
+    destruct (render (t' :: kt)) eqn:E; [apply render_nil in E; discriminate|reflexivity].
+Qed.
+
+Definition is_wild (t : token) : bool := match t with TStatic _ => false | _ => true end.
+Definition cnt_wild (kt : list token) : nat := List.length (filter is_wild kt).
+
+Lemma nth_error_0 {A} (l : list A) : nth_error l 0 = hd_error l.
+Proof. destruct l; reflexivity. Qed.
+
+Lemma pw_spec_nth : forall done t kt pos q, is_wild t = true -> q = pos + List.length (render done) ->
+  nth_error (pw_spec (done ++ t :: kt) pos) (cnt_wild done) = hd_error (pw_spec (t :: kt) q).
+Proof.
+  induction done as [|d done IH]; intros t kt pos q Hw Hq.
+  - simpl in Hq. rewrite Nat.add_0_r in Hq. subst q. apply nth_error_0.
+  - destruct d as [c|nm|nm].
+    + change (pw_spec ((TStatic c :: done) ++ t :: kt) pos) with (pw_spec (done ++ t :: kt) (S pos)).
+      change (cnt_wild (TStatic c :: done)) with (cnt_wild done).
+      apply IH; auto. simpl in Hq. lia.
+    + change (cnt_wild (TParam nm :: done)) with (S (cnt_wild done)).
+      simpl app. cbn [pw_spec nth_error]. apply IH; auto.
+      subst q. simpl. rewrite !app_length. simpl. lia.
+    + change (cnt_wild (TCatch nm :: done)) with (S (cnt_wild done)).
+      simpl app. cbn [pw_spec nth_error]. apply IH; auto.
+      subst q. simpl. rewrite !app_length. simpl. lia.
+Qed.
+
+(* ------------------------------------------------------------------ *)
+(* matching one key (token list) against the remaining path             *)
+(* ------------------------------------------------------------------ *)
+Definition is_slash (x : ascii) : bool := Ascii.eqb x "/".
+
+Inductive kres := KDone (rest : bytes) (vals : list kv) | KShort | KFail.
+
+Fixpoint kmatch (kt : list token) (p : bytes) (vals : list kv) : kres :=
+  match kt with
+  | [] => KDone p vals
+  | t :: kt' =>
+    match p with
+    | [] => KShort
+    | c :: p' =>
+      match t with
+      | TStatic d => if Ascii.eqb d c && sbyte c then kmatch kt' p' vals else KFail
+      | TParam nm =>
+          match seg is_slash p with
+          | [] => KFail
+          | v => kmatch kt' (skipn (List.length v) p) (vals ++ [(nm, v)])
+          end
+      | TCatch _ => KFail
+      end
+    end
+  end.
+
+Definition kres_pre (pre : list kv) (r : kres) : kres :=
+  match r with KDone rest vals => KDone rest (pre ++ vals) | x => x end.
+
+Lemma kmatch_acc : forall kt p vals, kmatch kt p vals = kres_pre vals (kmatch kt p []).
+Proof.
+  induction kt as [|t kt IH]; intros p vals.
+  - simpl. rewrite app_nil_r. reflexivity.
+  - destruct p as [|c p']; [reflexivity|]. destruct t as [d|nm|nm]; cbn [kmatch].
+    + destruct (Ascii.eqb d c && sbyte c); [apply IH|reflexivity].
+    + destruct (seg is_slash (c :: p')) as [|v0 v]; [reflexivity|].
+      rewrite IH. rewrite (IH _ ([] ++ _)). destruct (kmatch kt _ []); simpl; auto. rewrite <- app_assoc. reflexivity.
+    + reflexivity.
+Qed.
+
+Lemma index_byte_seg : forall p,
+  match index_byte p "/" with
+  | Some d => seg is_slash p = firstn d p /\ d < List.length p /\ List.length (seg is_slash p) = d
+  | None => seg is_slash p = p
+  end.
+Proof.
+  induction p as [|x p IH]; simpl; auto.
+  assert (is_slash x = Ascii.eqb x "/") as Hx by reflexivity. rewrite Hx.
+  destruct (Ascii.eqb x "/"); simpl.
+  - repeat split. lia.
+  - destruct (index_byte p "/") as [d|]; simpl.
+    + destruct IH as (H1 & H2 & H3). rewrite H1 at 1. repeat split; auto. lia.
+    + rewrite IH. reflexivity.
+Qed.
+
+Lemma nth_error_app_len {A} (a b : list A) : nth_error (a ++ b) (List.length a) = hd_error b.
+Proof. induction a; simpl; auto. Qed.
+
+(* parameter lists only grow below a choice point *)
+Definition extends (a l : list kv) : Prop := firstn (List.length a) l = a.
+Lemma extends_refl a : extends a a.
+Proof. unfold extends. apply firstn_all. Qed.
+Lemma extends_app a b l : extends (a ++ b) l -> extends a l.
+Proof.
+  unfold extends. intros H. rewrite app_length in H.
+  assert (firstn (List.length a) (firstn (List.length a + List.length b) l) = firstn (List.length a) (a ++ b)) as H'
+    by (rewrite H; reflexivity).
+  rewrite firstn_firstn in H'. replace (Nat.min (List.length a) (List.length a + List.length b)) with (List.length a) in H' by lia.
+  rewrite H'. rewrite firstn_app, Nat.sub_diag, firstn_all. simpl. apply app_nil_r.
+Qed.
+Lemma extends_len a l : extends a l -> List.length a <= List.length l.
+Proof. unfold extends. intros H. rewrite <- H at 1. rewrite firstn_length. lia. Qed.
+
+Definition addp (lazy : bool) (pss vals : list kv) : list kv := if lazy then pss else pss ++ vals.
+Lemma addp_nil lazy pss : addp lazy pss [] = pss.
+Proof. destruct lazy; simpl; auto. apply app_nil_r. Qed.
+Lemma addp_addp lazy pss a b : addp lazy (addp lazy pss a) b = addp lazy pss (a ++ b).
+Proof. destruct lazy; simpl; auto. rewrite app_assoc. reflexivity. Qed.
+Lemma extends_addp lazy a v l : extends (addp lazy a v) l -> extends a l.
+Proof. destruct lazy; simpl; auto. apply extends_app. Qed.
+
+(* the run reaches Backtrack without having produced a result *)
+Definition backs (path : bytes) (lazy : bool) (fuel : nat) (ph : phase) (s : st) (cost : nat) : Prop :=
+  exists fuel' s', lbp fuel path lazy ph s = lbp fuel' path lazy PBack s' /\ fuel <= fuel' + cost /\
+                   sks s' = sks s /\ extends (ps s) (ps s') /\ tinv s' /\ pkc s' = 0.
+
+Lemma backs_after path lazy fuel s cost :
+  is_leaf (cur s) && Nat.eqb (cm s) (List.length path) && Nat.eqb (cmn s) (List.length (nkey (cur s))) = false ->
+  tinv s -> 1 <= fuel -> 1 <= cost -> backs path lazy fuel PAfter s cost.
+Proof.
+  intros Hno Ht Hf Hc. destruct fuel as [|f]; [lia|].
+  destruct (after_fail f path lazy s Hno Ht) as (s' & He & Hcore & Ht' & _ & Hk).
+  destruct Hcore as (_ & _ & _ & _ & Hs & Hp).
+  exists f, s'. repeat split; auto; try lia. unfold extends. rewrite Hp. apply firstn_all.
+Qed.
+
+Lemma cm_lt_nofound (path : bytes) s : cm s < List.length path ->
+  is_leaf (cur s) && Nat.eqb (cm s) (List.length path) && Nat.eqb (cmn s) (List.length (nkey (cur s))) = false.
+Proof.
+  intros H. replace (Nat.eqb (cm s) (List.length path)) with false by (symmetry; apply Nat.eqb_neq; lia).
+  rewrite andb_false_r. reflexivity.
+Qed.
+
+Lemma cmn_lt_nofound (path : bytes) s : cmn s < List.length (nkey (cur s)) ->
+  is_leaf (cur s) && Nat.eqb (cm s) (List.length path) && Nat.eqb (cmn s) (List.length (nkey (cur s))) = false.
+Proof.
+  intros H. replace (Nat.eqb (cmn s) (List.length (nkey (cur s)))) with false by (symmetry; apply Nat.eqb_neq; lia).
+  apply andb_false_r.
+Qed.
+
+(* ------------------------------------------------------------------ *)
+(* single steps of the inner key loop                                   *)
+(* ------------------------------------------------------------------ *)
+Lemma inner_exit f path lazy i s :
+  List.length path <= cm s \/ List.length (nkey (cur s)) <= i ->
+  lbp (S f) path lazy (PInner i) s = lbp f path lazy PSelect s.
+Proof.
+  intros H. cbn [lbp]. destruct (Nat.ltb (cm s) (List.length path)) eqn:E1; cbn [negb]; [|reflexivity].
+  destruct H as [H|H]; [apply Nat.ltb_lt in E1; lia|]. apply Nat.ltb_ge in H. rewrite H. reflexivity.
+Qed.
+
+Lemma inner_static_step f path lazy i s d c :
+  nth_error (nkey (cur s)) i = Some d -> nth_error path (cm s) = Some c -> sbyte d = true ->
+  lbp (S f) path lazy (PInner i) s =
+  if Ascii.eqb d c && sbyte c then lbp f path lazy (PInner (S i)) (adv s 1) else lbp f path lazy PAfter s.
+Proof.
+  intros Hk Hp Hd. cbn [lbp].
+  assert (i < List.length (nkey (cur s))) as Hi by (apply nth_error_Some; congruence).
+  assert (cm s < List.length path) as Hc by (apply nth_error_Some; congruence).
+  apply Nat.ltb_lt in Hi, Hc. rewrite Hi, Hc. cbn [negb]. rewrite Hk, Hp.
+  unfold sbyte in Hd. apply andb_prop in Hd. destruct Hd as [H1 H2]. apply negb_true_iff in H1, H2.
+  rewrite H1, H2. unfold sbyte.
+  destruct (Ascii.eqb d c); cbn [negb orb andb].
+  - destruct (Ascii.eqb c "{"); cbn [negb orb andb]; [reflexivity|].
+    destruct (Ascii.eqb c "*"); cbn [negb orb andb]; reflexivity.
+  - reflexivity.
+Qed.
+
+Definition pstate (lazy : bool) (s : st) (cm' adv : nat) (nm v : bytes) : st :=
+  {| cur := cur s; par := par s; cm := cm'; cmn := cmn s + adv;
+     pcnt := if lazy then pcnt s else S (pcnt s); pkc := S (pkc s); sks := sks s;
+     ps := if lazy then ps s else ps s ++ [(nm, v)];
+     tsr := tsr s; tn := tn s; tps := tps s |}.
+
+Definition adv_of (prm : param) (s : st) : nat :=
+  let rest := List.length (nkey (cur s)) - cmn s in
+  match pend prm with
+  | Some e => if Nat.leb (cmn s) e then e - cmn s else rest
+  | None => rest end.
+
+Lemma inner_param_step f path lazy i s c prm :
+  nth_error (nkey (cur s)) i = Some "{" -> nth_error path (cm s) = Some c ->
+  nth_error (nparams (cur s)) (pkc s) = Some prm ->
+  lbp (S f) path lazy (PInner i) s =
+  match index_byte (skipn (cm s) path) "/" with
+  | Some O => lbp f path lazy PAfter s
+  | idx =>
+    let cm' := match idx with Some d => cm s + d | None => List.length path end in
+    lbp f path lazy (PInner (i + adv_of prm s))
+      (pstate lazy s cm' (adv_of prm s) (pkey prm) (slice path (cm s) cm'))
+  end.
+Proof.
+  intros Hk Hp Hprm. cbn [lbp].
+  assert (i < List.length (nkey (cur s))) as Hi by (apply nth_error_Some; congruence).
+  assert (cm s < List.length path) as Hc by (apply nth_error_Some; congruence).
+  apply Nat.ltb_lt in Hi, Hc. rewrite Hi, Hc. cbn [negb]. rewrite Hk, Hp.
+  assert (negb (Ascii.eqb "{" c) || Ascii.eqb c "{" || Ascii.eqb c "*" = true) as ->.
+  { rewrite (Ascii.eqb_sym "{" c). destruct (Ascii.eqb c "{"); reflexivity. }
+  cbn [Ascii.eqb Bool.eqb andb]. rewrite Hprm.
+  destruct (index_byte (skipn (cm s) path) "/") as [[|d]|]; reflexivity.
+Qed.
+
+Lemma extends_trans a b c : extends a b -> extends b c -> extends a c.
+Proof.
+  intros Hab Hbc. pose proof (extends_len _ _ Hab) as Hl. unfold extends in *.
+  transitivity (firstn (List.length a) (firstn (List.length b) c)).
+  - rewrite firstn_firstn. f_equal. lia.
+  - rewrite Hbc. exact Hab.
+Qed.
+
+Lemma backs_step path lazy fuel ph s cost fuel1 ph1 s1 cost1 k :
+  lbp fuel path lazy ph s = lbp fuel1 path lazy ph1 s1 ->
+  backs path lazy fuel1 ph1 s1 cost1 ->
+  sks s1 = sks s -> extends (ps s) (ps s1) -> fuel <= fuel1 + k -> cost1 + k <= cost ->
+  backs path lazy fuel ph s cost.
+Proof.
+  intros He (fuel' & s' & He' & Hf & Hs & Hx & Ht & Hk) Hs1 Hx1 Hf1 Hc.
+  exists fuel', s'. repeat split; auto; try congruence; try lia. eapply extends_trans; eauto.
+Qed.
+
+(* the key of the current node has been matched completely *)
+Definition inner_ok (path : bytes) (lazy : bool) (fuel : nat) (s : st) (rest : bytes) (vals : list kv) (cost : nat) : Prop :=
+  exists fuel' s', lbp fuel path lazy (PInner (cmn s)) s = lbp fuel' path lazy PSelect s' /\ fuel <= fuel' + cost /\
+    cur s' = cur s /\ par s' = par s /\ skipn (cm s') path = rest /\ cm s' <= List.length path /\
+    cmn s' = List.length (nkey (cur s)) /\ sks s' = sks s /\ ps s' = addp lazy (ps s) vals /\
+    pcnt s' = List.length (ps s') /\ tinv s'.
+
+Lemma inner_ok_step path lazy fuel s rest v0 vals1 cost fuel1 s1 cost1 k :
+  lbp fuel path lazy (PInner (cmn s)) s = lbp fuel1 path lazy (PInner (cmn s1)) s1 ->
+  inner_ok path lazy fuel1 s1 rest vals1 cost1 ->
+  cur s1 = cur s -> par s1 = par s -> sks s1 = sks s -> ps s1 = addp lazy (ps s) v0 ->
+  fuel <= fuel1 + k -> cost1 + k <= cost ->
+  inner_ok path lazy fuel s rest (v0 ++ vals1) cost.
+Proof.
+  intros He (fuel' & s' & He' & Hf & H1 & H2 & H3 & H4 & H5 & H6 & H7 & H8 & H9) Hc Hp Hs Hps Hf1 Hk.
+  exists fuel', s'. repeat split; auto; try congruence; try lia.
+  rewrite H7, Hps. apply addp_addp.
+Qed.
+
+Lemma forallb_ptok_tok kt : forallb ptok_ok kt = true -> forallb tok_ok kt = true.
+Proof.
+  intros H. apply forallb_forall. intros t Ht. apply ptok_tok. rewrite forallb_forall in H. auto.
+Qed.
+
+Lemma param_info s done nm kt' :
+  nkey (cur s) = render (done ++ TParam nm :: kt') -> forallb tok_ok (done ++ TParam nm :: kt') = true ->
+  cmn s = List.length (render done) -> pkc s = cnt_wild done ->
+  exists prm, nth_error (nparams (cur s)) (pkc s) = Some prm /\ pkey prm = nm /\
+              adv_of prm s = List.length nm + 2.
+Proof.
+  intros Hk Hok Hcmn Hpkc. unfold nparams, parse_wildcard. rewrite Hk, pw_render by exact Hok.
+  rewrite Hpkc. rewrite (pw_spec_nth done (TParam nm) kt' 0 (List.length (render done))) by auto.
+  cbn [pw_spec hd_error]. eexists. split; [reflexivity|]. split; [reflexivity|].
+  unfold adv_of. cbn [pend]. rewrite Hk, Hcmn, render_app, app_length.
+  destruct kt' as [|t kt'].
+  - change (render [TParam nm]) with (("{" :: nm ++ ["}"]) ++ []). rewrite app_nil_r.
+    cbn [List.length]. rewrite app_length. simpl. lia.
+  - replace (Nat.leb (List.length (render done)) (List.length (render done) + List.length nm + 2)) with true
+      by (symmetry; apply Nat.leb_le; lia). lia.
+Qed.
+
+Lemma render_cons_len t kt : List.length (render (t :: kt)) = List.length (render_tok t) + List.length (render kt).
+Proof. simpl. apply app_length. Qed.
+
+Lemma render_tok_len_pos t : 1 <= List.length (render_tok t).
+Proof. destruct t; simpl; lia. Qed.
+
+Lemma forallb_app_l {A} (f : A -> bool) a b : forallb f (a ++ b) = true -> forallb f a = true /\ forallb f b = true.
+Proof. rewrite forallb_app. intros H. apply andb_prop in H. exact H. Qed.
+
+Ltac fin := eauto; try lia; try apply extends_refl; try (rewrite addp_nil; reflexivity); try reflexivity.
+
+Lemma inner_tok path lazy : forall kt done s fuel,
+  nkey (cur s) = render (done ++ kt) -> forallb ptok_ok (done ++ kt) = true ->
+  cmn s = List.length (render done) -> pkc s = cnt_wild done ->
+  pcnt s = List.length (ps s) -> tinv s -> cm s <= List.length path ->
+  List.length (render kt) + 4 <= fuel ->
+  match kmatch kt (skipn (cm s) path) [] with
+  | KDone rest vals => inner_ok path lazy fuel s rest vals (List.length (render kt) + 1)
+  | _ => backs path lazy fuel (PInner (cmn s)) s (List.length (render kt) + 4)
+  end.
+Proof.
+  induction kt as [|t kt IH]; intros done s fuel Hk Hok Hcmn Hpkc Hpc Ht Hcm Hf.
+  - (* key exhausted *)
+    cbn [kmatch]. destruct fuel as [|f]; [lia|]. exists f, s.
+    rewrite inner_exit by (right; rewrite Hk, app_nil_r, Hcmn; lia).
+    repeat split; auto; try lia.
+    + rewrite Hk, app_nil_r. exact Hcmn.
+    + rewrite addp_nil. reflexivity.
+  - assert (Hklen : List.length (nkey (cur s)) = List.length (render done) + List.length (render (t :: kt)))
+      by (rewrite Hk, render_app, app_length; reflexivity).
+    pose proof (render_cons_len t kt) as Hrl. pose proof (render_tok_len_pos t) as Htl.
+    destruct (skipn (cm s) path) as [|c p'] eqn:Ep.
+    + (* path exhausted inside the key *)
+      cbn [kmatch]. apply skipn_nil_len in Ep.
+      destruct fuel as [|[|[|f]]]; try lia.
+      eapply backs_step with (k := 3) (cost1 := 1).
+      * rewrite inner_exit by (left; exact Ep). rewrite select_ge by exact Ep. reflexivity.
+      * apply backs_after; auto; try lia. apply cmn_lt_nofound. lia.
+      * reflexivity.
+      * apply extends_refl.
+      * lia.
+      * lia.
+    + pose proof (skipn_cons_nth _ _ _ _ Ep) as (Hpc0 & Hp' & Hlt).
+      assert (Hkey : nth_error (nkey (cur s)) (cmn s) = hd_error (render (t :: kt))).
+      { rewrite Hk, render_app, Hcmn. apply nth_error_app_len. }
+      apply forallb_app_l in Hok. destruct Hok as [Hokd Hokt].
+      pose proof Hokt as Hokt0. simpl in Hokt. apply andb_prop in Hokt. destruct Hokt as [Hokt1 Hokt2].
+      destruct t as [d|nm|nm]; [| |discriminate].
+      * (* static byte *)
+        simpl in Hkey, Hokt1. cbn [kmatch].
+        destruct fuel as [|f]; [lia|].
+        pose proof (inner_static_step f path lazy (cmn s) s d c Hkey Hpc0 Hokt1) as Hstep.
+        destruct (Ascii.eqb d c && sbyte c) eqn:E.
+        -- assert (Hr1 : List.length (render (done ++ [TStatic d])) = S (List.length (render done)))
+             by (rewrite render_app, app_length; simpl; lia).
+           assert (Hcw : cnt_wild (done ++ [TStatic d]) = cnt_wild done).
+           { unfold cnt_wild. rewrite filter_app, app_length. simpl. lia. }
+           change (List.length (render_tok (TStatic d))) with 1 in Hrl.
+           assert (IH' := IH (done ++ [TStatic d]) (adv s 1) f).
+           rewrite <- app_assoc in IH'. simpl app in IH'.
+           specialize (IH' Hk).
+           rewrite forallb_app in IH'. rewrite Hokd in IH'. specialize (IH' Hokt0).
+           specialize (IH' ltac:(change (cmn (adv s 1)) with (S (cmn s)); rewrite Hr1; lia) ltac:(change (pkc (adv s 1)) with (pkc s); rewrite Hcw; exact Hpkc) Hpc Ht
+                           ltac:(change (cm (adv s 1)) with (S (cm s)); lia) ltac:(lia)).
+           change (cm (adv s 1)) with (S (cm s)) in IH'. rewrite Hp' in IH'.
+           change (cmn (adv s 1)) with (S (cmn s)) in IH'.
+           clear IH. rename IH' into IH.
+           destruct (kmatch kt p' []) as [rest vals| |].
+           ++ replace vals with ([] ++ vals) by reflexivity.
+              eapply (inner_ok_step path lazy (S f) s rest [] vals _ f (adv s 1) _ 1); fin.
+           ++ eapply (backs_step path lazy (S f) _ s _ f _ (adv s 1) _ 1); fin.
+           ++ eapply (backs_step path lazy (S f) _ s _ f _ (adv s 1) _ 1); fin.
+        -- eapply (backs_step path lazy (S f) _ s _ f PAfter s 1 1); fin.
+           apply backs_after; auto; try lia. apply cm_lt_nofound. exact Hlt.
+      * (* named parameter *)
+        simpl in Hkey.
+        destruct (param_info s done nm kt Hk) as (prm & Hprm & Hpk & Hadv); auto.
+        { rewrite forallb_app. rewrite (forallb_ptok_tok _ Hokd), (forallb_ptok_tok _ Hokt0). reflexivity. }
+        destruct fuel as [|f]; [lia|].
+        pose proof (inner_param_step f path lazy (cmn s) s c prm Hkey Hpc0 Hprm) as Hstep.
+        rewrite Hadv, Hpk, Ep in Hstep.
+        pose proof (index_byte_seg (c :: p')) as Hseg.
+        cbn [kmatch].
+        assert (Hgen : forall cm', cm' = cm s + List.length (seg is_slash (c :: p')) ->
+                  seg is_slash (c :: p') <> [] ->
+                  List.length (seg is_slash (c :: p')) <= List.length (c :: p') ->
+                  slice path (cm s) cm' = seg is_slash (c :: p') ->
+                  lbp (S f) path lazy (PInner (cmn s)) s =
+                  lbp f path lazy (PInner (cmn s + (List.length nm + 2)))
+                    (pstate lazy s cm' (List.length nm + 2) nm (slice path (cm s) cm')) ->
+                  match match seg is_slash (c :: p') with
+                        | [] => KFail
+                        | a :: l => kmatch kt (skipn (List.length (a :: l)) (c :: p')) ([] ++ [(nm, a :: l)])
+                        end with
+                  | KDone rest vals => inner_ok path lazy (S f) s rest vals (List.length (render (TParam nm :: kt)) + 1)
+                  | _ => backs path lazy (S f) (PInner (cmn s)) s (List.length (render (TParam nm :: kt)) + 4)
+                  end).
+        { intros cm' Hcm' Hvne Hvlen Hslice Hst. clear Hseg.
+          destruct (seg is_slash (c :: p')) as [|v0 vv] eqn:Ev; [congruence|]. set (v := v0 :: vv) in *.
+          rewrite Hslice in Hst. set (s1 := pstate lazy s cm' (List.length nm + 2) nm v) in *.
+          assert (Hr1 : List.length (render (done ++ [TParam nm])) = List.length (render done) + (List.length nm + 2)).
+          { rewrite render_app, app_length. f_equal. change (render [TParam nm]) with (("{" :: nm ++ ["}"]) ++ []).
+            rewrite app_nil_r. cbn [List.length]. rewrite app_length. simpl. lia. }
+          assert (Hcw : cnt_wild (done ++ [TParam nm]) = S (cnt_wild done)).
+          { unfold cnt_wild. rewrite filter_app, app_length. simpl. lia. }
+          assert (Hlenp : List.length (c :: p') = List.length path - cm s) by (rewrite <- Ep; apply skipn_length).
+          assert (IH' := IH (done ++ [TParam nm]) s1 f).
+          rewrite <- app_assoc in IH'. simpl app in IH'.
+          specialize (IH' Hk).
+          rewrite forallb_app in IH'. rewrite Hokd in IH'. specialize (IH' Hokt0).
+          assert (Hrl' : List.length (render (TParam nm :: kt)) = List.length nm + 2 + List.length (render kt)).
+          { rewrite Hrl. f_equal. simpl. rewrite app_length. simpl. lia. }
+          specialize (IH' ltac:(change (cmn s1) with (cmn s + (List.length nm + 2)); rewrite Hr1; lia)
+                          ltac:(change (pkc s1) with (S (pkc s)); rewrite Hcw, Hpkc; reflexivity)).
+          assert (Hpc1 : pcnt s1 = List.length (ps s1)).
+          { unfold s1, pstate; cbn [pcnt ps]. destruct lazy; auto. rewrite app_length. simpl. lia. }
+          specialize (IH' Hpc1 Ht ltac:(change (cm s1) with cm'; lia) ltac:(lia)).
+          change (cm s1) with cm' in IH'.
+          assert (Hsk : skipn cm' path = skipn (List.length v) (c :: p')).
+          { rewrite <- Ep, skipn_skipn'. f_equal. lia. }
+          rewrite Hsk in IH'.
+          rewrite kmatch_acc. simpl app.
+          assert (Hx : extends (ps s) (ps s1)).
+          { unfold s1, pstate; cbn [ps]. destruct lazy; [apply extends_refl|].
+            unfold extends. rewrite firstn_app, Nat.sub_diag, firstn_all. simpl. apply app_nil_r. }
+          destruct (kmatch kt (skipn (List.length v) (c :: p')) []) as [rest vals| |]; cbn [kres_pre].
+          - eapply (inner_ok_step path lazy (S f) s rest [(nm, v)] vals _ f s1 _ 1); fin.
+          - eapply (backs_step path lazy (S f) _ s _ f _ s1 _ 1); fin.
+          - eapply (backs_step path lazy (S f) _ s _ f _ s1 _ 1); fin. }
+        destruct (index_byte (c :: p') "/") as [[|dd]|] eqn:Eidx.
+        -- (* empty segment *)
+           destruct Hseg as (Hs1 & _ & _). rewrite Hs1. cbn [firstn].
+           eapply (backs_step path lazy (S f) _ s _ f PAfter s 1 1); fin.
+           apply backs_after; auto; try lia. apply cm_lt_nofound. exact Hlt.
+        -- destruct Hseg as (Hs1 & Hs2 & Hs3). cbv zeta in Hstep.
+           apply (Hgen (cm s + S dd)); auto.
+           ++ rewrite Hs1. simpl. discriminate.
+           ++ lia.
+           ++ unfold slice. rewrite Ep, Hs1. f_equal. lia.
+        -- cbv zeta in Hstep.
+           assert (Hlenp : List.length (c :: p') = List.length path - cm s) by (rewrite <- Ep; apply skipn_length).
+           apply (Hgen (List.length path)); auto.
+           ++ rewrite Hseg, Hlenp. lia.
+           ++ rewrite Hseg. discriminate.
+           ++ rewrite Hseg. lia.
+           ++ unfold slice. rewrite Ep, Hseg, <- Hlenp. apply firstn_all.
+Qed.
+
+(* ------------------------------------------------------------------ *)
+(* child selection and Backtrack steps                                  *)
+(* ------------------------------------------------------------------ *)
+Definition heads (l : list node) : list (option ascii) := map (fun c => hd_byte (nkey c)) l.
+
+Lemma starts_with_hd c k : starts_with c k = true <-> hd_byte k = Some c.
+Proof.
+  destruct k as [|x k]; simpl; split; try discriminate.
+  - intros H. apply Ascii.eqb_eq in H. congruence.
+  - intros [= ->]. apply Ascii.eqb_refl.
+Qed.
+
+Lemma last_index_find c : forall l i acc, NoDup (heads l) ->
+  last_index_from i c l acc = match find_child_from i c l with Some j => Some j | None => acc end.
+Proof.
+  induction l as [|x l IH]; intros i acc Hnd; simpl; auto.
+  inversion Hnd as [|? ? Hni Hnd']; subst.
+  destruct (starts_with c (nkey x)) eqn:E.
+  - apply last_index_none. intros y Hy. destruct (starts_with c (nkey y)) eqn:Ey; auto.
+    exfalso. apply Hni. apply starts_with_hd in E, Ey. rewrite E, <- Ey. exact (in_map (fun c0 => hd_byte (nkey c0)) l y Hy).
+  - apply IH; auto.
+Qed.
+
+Lemma index_first c n : NoDup (heads (nchildren n)) ->
+  match last_index_from 0 c (nchildren n) None with
+  | Some j => nth_error (nchildren n) j = first_child c (nchildren n) /\ first_child c (nchildren n) <> None
+  | None => first_child c (nchildren n) = None
+  end.
+Proof.
+  intros Hnd. rewrite last_index_find by exact Hnd.
+  pose proof (find_child_first n c) as H. unfold find_child in H.
+  destruct (find_child_from 0 c (nchildren n)); auto.
+Qed.
+
+Lemma select_static_push f path lazy s c x pi :
+  cm s < List.length path -> nth_error path (cm s) = Some c ->
+  first_child c (nchildren (cur s)) = Some x ->
+  param_child_index (cur s) = Some pi -> wildcard_child_index (cur s) = None ->
+  lbp (S f) path lazy PSelect s = lbp f path lazy PWalk (descend (push s pi) x).
+Proof.
+  intros Hlt Hc Hx Hp Hw. cbn [lbp]. apply Nat.ltb_lt in Hlt. rewrite Hlt, Hc.
+  pose proof (find_child_first (cur s) c) as Hf. destruct (find_child (cur s) c) as [j|].
+  - destruct Hf as [Hj _]. rewrite Hp, Hw, Hj, Hx. reflexivity.
+  - congruence.
+Qed.
+
+Lemma select_param f path lazy s c y pi :
+  cm s < List.length path -> nth_error path (cm s) = Some c ->
+  first_child c (nchildren (cur s)) = None ->
+  param_child_index (cur s) = Some pi -> nth_error (nchildren (cur s)) pi = Some y ->
+  wildcard_child_index (cur s) = None -> tinv s ->
+  exists s1, lbp (S f) path lazy PSelect s = lbp f path lazy PWalk (descend s1 y)
+             /\ same_core s s1 /\ tinv s1 /\ pcnt s1 = pcnt s.
+Proof.
+  intros Hlt Hc Hx Hp Hy Hw Ht. cbn [lbp]. apply Nat.ltb_lt in Hlt. rewrite Hlt, Hc.
+  pose proof (find_child_first (cur s) c) as Hf. destruct (find_child (cur s) c) as [j|].
+  - destruct Hf as [_ Hj]. congruence.
+  - match goal with |- context [if ?b then set_tsr lazy s (cur s) (ps s) else s] => destruct b end.
+    + change (cur (set_tsr lazy s (cur s) (ps s))) with (cur s). rewrite Hp, Hw, Hy.
+      eexists; split; [reflexivity|]. split; [apply set_tsr_core|]. split; [apply set_tsr_tinv|reflexivity].
+    + rewrite Hp, Hw, Hy. eexists; split; [reflexivity|]. split; [apply same_core_refl|]. split; auto.
+Qed.
+
+Definition popped (s : st) (sk : skipped) (rest : list skipped) (y : node) : st :=
+  {| cur := y; par := Some (sk_n sk); cm := sk_path sk; cmn := cmn s; pcnt := sk_pcnt sk; pkc := pkc s;
+     sks := rest; ps := firstn (sk_pcnt sk) (ps s); tsr := tsr s; tn := tn s; tps := tps s |}.
+
+Lemma back_pop f path lazy s sk rest y :
+  sks s = sk :: rest -> nth_error (nchildren (sk_n sk)) (sk_child sk) = Some y ->
+  sk_pcnt sk <= List.length (ps s) ->
+  lbp (S f) path lazy PBack s = lbp f path lazy PWalk (popped s sk rest y).
+Proof.
+  intros Hs Hy Hle. cbn [lbp]. rewrite Hs, Hy. apply Nat.ltb_ge in Hle. rewrite Hle. reflexivity.
+Qed.
+
+(* ------------------------------------------------------------------ *)
+(* tokenize inverts render                                              *)
+(* ------------------------------------------------------------------ *)
+Lemma take_name_render : forall nm rest, name_ok nm = true -> take_name (nm ++ "}" :: rest) = (nm, rest).
+Proof.
+  induction nm as [|c nm IH]; intros rest Hok.
+  - reflexivity.
+  - unfold name_ok in Hok. simpl in Hok. apply negb_true_iff in Hok. apply orb_false_elim in Hok.
+    destruct Hok as [Hc Hok].
+    assert (Ascii.eqb c "}" = false) as Hc' by (rewrite Ascii.eqb_sym; exact Hc).
+    cbn [app take_name]. rewrite Hc'. rewrite IH; [reflexivity|]. unfold name_ok. rewrite Hok. reflexivity.
+Qed.
+
+Lemma tokenize_fuel_render : forall kt f, forallb tok_ok kt = true -> List.length kt <= f ->
+  tokenize_fuel f (render kt) = kt.
+Proof.
+  induction kt as [|t kt IH]; intros f Hok Hf.
+  - destruct f; reflexivity.
+  - destruct f as [|f]; [simpl in Hf; lia|]. simpl in Hok. apply andb_prop in Hok. destruct Hok as [Ht Hok].
+    simpl in Hf. destruct t as [c|nm|nm]; simpl in Ht.
+    + change (render (TStatic c :: kt)) with (c :: render kt). rewrite tokenize_step by exact Ht.
+      f_equal. apply IH; auto. lia.
+    + change (render (TParam nm :: kt)) with ("{" :: (nm ++ ["}"]) ++ render kt). rewrite <- app_assoc.
+      cbn [tokenize_fuel]. simpl app. rewrite take_name_render by exact Ht. f_equal. apply IH; auto. lia.
+    + change (render (TCatch nm :: kt)) with ("*" :: "{" :: (nm ++ ["}"]) ++ render kt). rewrite <- app_assoc.
+      cbn [tokenize_fuel]. simpl app. rewrite take_name_render by exact Ht. f_equal. apply IH; auto. lia.
+Qed.
+
+Lemma render_len_ge kt : List.length kt <= List.length (render kt).
+Proof.
+  induction kt as [|t kt IH]; simpl; auto. rewrite app_length. pose proof (render_tok_len_pos t). lia.
+Qed.
+
+Lemma tokenize_render kt : forallb tok_ok kt = true -> tokenize (render kt) = kt.
+Proof. intros H. apply tokenize_fuel_render; auto. pose proof (render_len_ge kt). lia. Qed.
+
+(* ------------------------------------------------------------------ *)
+(* M2: DFS matcher without an explicit stack                            *)
+(* ------------------------------------------------------------------ *)
+Definition mres := option (node * list kv).
+Definition with_vals (vals : list kv) (r : mres) : mres :=
+  match r with Some (l, v2) => Some (l, vals ++ v2) | None => None end.
+Definition alt (a b : mres) : mres := match a with Some _ => a | None => b end.
+
+Fixpoint m2 (n : node) (p : bytes) : mres :=
+  match n with
+  | Node k r ch =>
+    match kmatch (tokenize k) p [] with
+    | KDone [] vals => match r with Some _ => Some (n, vals) | None => None end
+    | KDone (c :: rest) vals =>
+        let try := fix go (cc : ascii) (l : list node) {struct l} : mres :=
+                     match l with
+                     | [] => None
+                     | x :: l' => if starts_with cc (nkey x) then m2 x (c :: rest) else go cc l'
+                     end in
+        with_vals vals (alt (try c ch) (try "{" ch))
+    | _ => None
+    end
+  end.
+
+Definition m2_child (cc : ascii) (ch : list node) (p : bytes) : mres :=
+  match first_child cc ch with Some x => m2 x p | None => None end.
+
+Lemma m2_eq k r ch p :
+  m2 (Node k r ch) p =
+  match kmatch (tokenize k) p [] with
+  | KDone [] vals => match r with Some _ => Some (Node k r ch, vals) | None => None end
+  | KDone (c :: rest) vals => with_vals vals (alt (m2_child c ch (c :: rest)) (m2_child "{" ch (c :: rest)))
+  | _ => None
+  end.
+Proof.
+  cbn [m2]. destruct (kmatch (tokenize k) p []) as [[|c rest] vals| |]; auto.
+  assert (forall cc, (fix go (cc : ascii) (l : list node) {struct l} : mres :=
+                        match l with
+                        | [] => None
+                        | x :: l' => if starts_with cc (nkey x) then m2 x (c :: rest) else go cc l'
+                        end) cc ch = m2_child cc ch (c :: rest)) as H.
+  { intros cc. unfold m2_child. induction ch as [|x ch IH]; simpl; auto. destruct (starts_with cc (nkey x)); auto. }
+  rewrite !H. reflexivity.
+Qed.
+
+(* stage-2 invariant: keys are whole tokens (static bytes, {name}); sibling keys start with
+   pairwise distinct bytes (hence at most one parameter child); a leaf's pattern is the
+   concatenation of the keys on its branch *)
+Inductive pwf : bytes -> node -> Prop :=
+| PWF pre k r ch kt :
+    kt <> [] -> k = render kt -> forallb ptok_ok kt = true ->
+    (forall rt, r = Some rt -> rpat rt = pre ++ k) ->
+    NoDup (heads ch) ->
+    Forall (pwf (pre ++ k)) ch ->
+    pwf pre (Node k r ch).
+
+Lemma pwf_inv pre k r ch : pwf pre (Node k r ch) ->
+  exists kt, kt <> [] /\ k = render kt /\ forallb ptok_ok kt = true /\
+             (forall rt, r = Some rt -> rpat rt = pre ++ k) /\ NoDup (heads ch) /\ Forall (pwf (pre ++ k)) ch.
+Proof. inversion 1; subst. exists kt. auto 7. Qed.
+
+Lemma pwf_head_not_star pre x : pwf pre x -> starts_with "*" (nkey x) = false.
+Proof.
+  destruct x as [k r ch]. intros H. apply pwf_inv in H. destruct H as (kt & Hne & -> & Hok & _).
+  destruct kt as [|t kt]; [congruence|]. simpl in Hok. apply andb_prop in Hok. destruct Hok as [Ht _].
+  destruct t as [c|nm|nm]; simpl in *; try discriminate; auto.
+  unfold sbyte in Ht. apply andb_prop in Ht. destruct Ht as [_ H2]. apply negb_true_iff in H2. exact H2.
+Qed.
+
+Lemma pwf_no_wildcard pre n : pwf pre n -> wildcard_child_index n = None.
+Proof.
+  destruct n as [k r ch]. intros H. apply pwf_inv in H. destruct H as (kt & _ & _ & _ & _ & _ & Hch).
+  unfold wildcard_child_index. simpl. apply last_index_none. intros x Hx.
+  rewrite Forall_forall in Hch. eapply pwf_head_not_star; eauto.
+Qed.
+
+Fixpoint ncost (n : node) : nat :=
+  match n with
+  | Node k r ch => List.length k + 12 + 2 * (fix sum (l : list node) : nat :=
+                                                match l with [] => 0 | x :: l' => ncost x + sum l' end) ch
+  end.
+Fixpoint ncost_sum (l : list node) : nat := match l with [] => 0 | x :: l' => ncost x + ncost_sum l' end.
+Lemma ncost_eq k r ch : ncost (Node k r ch) = List.length k + 12 + 2 * ncost_sum ch.
+Proof.
+  cbn [ncost].
+  assert ((fix sum (l : list node) : nat := match l with [] => 0 | x :: l' => ncost x + sum l' end) ch = ncost_sum ch) as ->.
+  { induction ch as [|x ch IH]; simpl; auto. }
+  reflexivity.
+Qed.
+Lemma ncost_in x ch : In x ch -> ncost x <= ncost_sum ch.
+Proof. induction ch as [|y ch IH]; simpl; [tauto|]. intros [->|H]; [lia|]. apply IH in H. lia. Qed.
+
+(* ------------------------------------------------------------------ *)
+(* M1 = M2                                                              *)
+(* ------------------------------------------------------------------ *)
+Definition reset_cmn (s : st) : st :=
+  {| cur := cur s; par := par s; cm := cm s; cmn := 0; pcnt := pcnt s; pkc := pkc s; sks := sks s;
+     ps := ps s; tsr := tsr s; tn := tn s; tps := tps s |}.
+
+Lemma walk_lt' f path lazy s : cm s < List.length path ->
+  lbp (S f) path lazy PWalk s = lbp f path lazy (PInner 0) (reset_cmn s).
+Proof. exact (walk_lt f path lazy s). Qed.
+
+Definition found_as (r : lres) (l : node) (pss : list kv) : Prop :=
+  exists tps', r = Found (Some l) false pss tps'.
+
+Lemma extends_addp_self lazy a v : extends a (addp lazy a v).
+Proof.
+  destruct lazy; simpl; [apply extends_refl|].
+  unfold extends. rewrite firstn_app, Nat.sub_diag, firstn_all. simpl. apply app_nil_r.
+Qed.
+Lemma walk_m2 path lazy : forall n pre, pwf pre n ->
+  forall fuel s, cur s = n -> cm s < List.length path -> pkc s = 0 -> pcnt s = List.length (ps s) -> tinv s ->
+  ncost n <= fuel ->
+  match m2 n (skipn (cm s) path) with
+  | Some (l, vals) => found_as (lbp fuel path lazy PWalk s) l (addp lazy (ps s) vals)
+  | None => backs path lazy fuel PWalk s (ncost n)
+  end.
+Proof.
+  induction n as [k r ch IH] using node_ind'. intros pre Hwf fuel s Hcur Hlt Hpkc Hpc Ht Hfuel.
+  pose proof (pwf_no_wildcard _ _ Hwf) as Hnw.
+  apply pwf_inv in Hwf. destruct Hwf as (kt & Hne & Hk & Hok & Hr & Hnd & Hch).
+  rewrite ncost_eq in *.
+  assert (Hkl : List.length k = List.length (render kt)) by (rewrite Hk; reflexivity).
+  destruct fuel as [|f1]; [lia|].
+  pose proof (walk_lt' f1 path lazy s Hlt) as Hw.
+  set (s0 := reset_cmn s) in *.
+  pose proof (inner_tok path lazy kt [] s0 f1) as Hin.
+  simpl app in Hin. change (cur s0) with (cur s) in Hin. rewrite Hcur in Hin. simpl nkey in Hin.
+  specialize (Hin Hk Hok eq_refl Hpkc Hpc Ht ltac:(change (cm s0) with (cm s); lia) ltac:(lia)).
+  change (cm s0) with (cm s) in Hin. change (cmn s0) with 0 in Hin.
+  rewrite m2_eq, Hk, tokenize_render by (apply forallb_ptok_tok; exact Hok).
+  destruct (kmatch kt (skipn (cm s) path) []) as [rest vals| |].
+  - destruct Hin as (f2 & s' & He & Hf2 & Hc' & Hp' & Hrest & Hcm' & Hcmn' & Hsk' & Hps' & Hpc' & Ht').
+    change (cmn s0) with 0 in He. change (cur s0) with (cur s) in *. change (sks s0) with (sks s) in *. change (ps s0) with (ps s) in *.
+    rewrite Hcur in Hc', Hcmn'. simpl nkey in Hcmn'.
+    assert (Hx0 : extends (ps s) (ps s')) by (rewrite Hps'; apply extends_addp_self).
+    destruct rest as [|c rest'].
+    + (* the path ends with this key *)
+      apply skipn_nil_len in Hrest.
+      destruct f2 as [|[|f3]]; try lia.
+      pose proof (select_ge f3 path lazy s' Hrest) as Hsel.
+      destruct r as [rt|].
+      * destruct f3 as [|f4]; [lia|].
+        exists (tps s'). rewrite Hw, He, Hsel.
+        rewrite after_found; [| rewrite Hc'; reflexivity | lia | rewrite Hc'; simpl; lia].
+        rewrite Hc', Hps', <- Hk. reflexivity.
+      * eapply (backs_step path lazy (S f1) PWalk s _ f3 PAfter s' 1 (List.length k + 4)).
+        -- rewrite Hw, He, Hsel. reflexivity.
+        -- apply backs_after; auto; try lia. rewrite Hc'. reflexivity.
+        -- exact Hsk'.
+        -- exact Hx0.
+        -- lia.
+        -- lia.
+    + pose proof (skipn_cons_nth _ _ _ _ Hrest) as (Hnc & _ & Hlt').
+      pose proof (index_first "{" (cur s')) as Hpci. rewrite Hc' in Hpci. simpl nchildren in Hpci.
+      specialize (Hpci Hnd). change (last_index_from 0 "{" ch None) with (param_child_index (Node k r ch)) in Hpci.
+      rewrite <- Hc' in Hpci, Hnw.
+      assert (Hch' : nchildren (cur s') = ch) by (rewrite Hc'; reflexivity).
+      rewrite Forall_forall in IH, Hch.
+      unfold m2_child.
+      destruct (first_child c ch) as [x|] eqn:Efx.
+      * pose proof (first_child_in _ _ _ Efx) as [Hinx _].
+        pose proof (IH x Hinx (pre ++ k) (Hch x Hinx)) as IHx.
+        pose proof (ncost_in x ch Hinx) as Hcx.
+        destruct f2 as [|f3]; [lia|].
+        destruct (param_child_index (cur s')) as [pi|] eqn:Epi.
+        -- destruct Hpci as [Hny Hyne]. destruct (first_child "{" ch) as [y|] eqn:Efy; [|congruence].
+           pose proof (first_child_in _ _ _ Efy) as [Hiny _].
+           pose proof (ncost_in y ch Hiny) as Hcy.
+           assert (Hsel : lbp (S f3) path lazy PSelect s' = lbp f3 path lazy PWalk (descend (push s' pi) x)).
+           { apply (select_static_push f3 path lazy s' c x pi); auto. rewrite Hch'. exact Efx. }
+           set (sd := descend (push s' pi) x) in *.
+           specialize (IHx f3 sd eq_refl Hlt' eq_refl Hpc' Ht' ltac:(lia)).
+           change (cm sd) with (cm s') in IHx. rewrite Hrest in IHx.
+           destruct (m2 x (c :: rest')) as [[l v2]|].
+           ++ destruct IHx as [tps' E]. exists tps'. rewrite Hw, He, Hsel, E.
+              change (ps sd) with (ps s'). rewrite Hps', addp_addp. reflexivity.
+           ++ destruct IHx as (f4 & s2 & He2 & Hf4 & Hsk2 & Hx2 & Ht2 & Hk2).
+              set (sk := {| sk_n := cur s'; sk_path := cm s'; sk_pcnt := pcnt s'; sk_child := pi |}) in *.
+              change (sks sd) with (sk :: sks s') in Hsk2. change (ps sd) with (ps s') in Hx2.
+              destruct f4 as [|f5]; [lia|].
+              assert (Hpop : lbp (S f5) path lazy PBack s2 = lbp f5 path lazy PWalk (popped s2 sk (sks s') y)).
+              { apply back_pop; auto.
+                - simpl. rewrite Hch'. exact Hny.
+                - simpl. rewrite Hpc'. apply extends_len. exact Hx2. }
+              set (s3 := popped s2 sk (sks s') y) in *.
+              assert (Hps3 : ps s3 = ps s').
+              { unfold s3, popped, sk; cbn [ps sk_pcnt]. rewrite Hpc'. exact Hx2. }
+              pose proof (IH y Hiny (pre ++ k) (Hch y Hiny) f5 s3 eq_refl Hlt' Hk2) as IHy.
+              rewrite Hps3 in IHy. specialize (IHy Hpc' Ht2 ltac:(lia)).
+              change (cm s3) with (cm s') in IHy. rewrite Hrest in IHy.
+              destruct (m2 y (c :: rest')) as [[l v2]|].
+              ** destruct IHy as [tps' E]. exists tps'. rewrite Hw, He, Hsel, He2, Hpop, E.
+                 rewrite Hps', addp_addp. reflexivity.
+              ** destruct IHy as (f6 & s4 & He4 & Hf6 & Hsk4 & Hx4 & Ht4 & Hk4).
+                 exists f6, s4. split; [rewrite Hw, He, Hsel, He2, Hpop; exact He4|].
+                 change (sks s3) with (sks s') in Hsk4. rewrite Hps3 in Hx4.
+                 repeat split; auto; try congruence; try lia.
+                 eapply extends_trans; eauto.
+        -- rewrite Hpci.
+           assert (Hsel : lbp (S f3) path lazy PSelect s' = lbp f3 path lazy PWalk (descend s' x)).
+           { apply (select_child f3 path lazy s' c x); auto. rewrite Hch'. exact Efx. }
+           set (sd := descend s' x) in *.
+           specialize (IHx f3 sd eq_refl Hlt' eq_refl Hpc' Ht' ltac:(lia)).
+           change (cm sd) with (cm s') in IHx. rewrite Hrest in IHx.
+           destruct (m2 x (c :: rest')) as [[l v2]|].
+           ++ destruct IHx as [tps' E]. exists tps'. rewrite Hw, He, Hsel, E.
+              change (ps sd) with (ps s'). rewrite Hps', addp_addp. reflexivity.
+           ++ destruct IHx as (f4 & s2 & He2 & Hf4 & Hsk2 & Hx2 & Ht2 & Hk2).
+              exists f4, s2. split; [rewrite Hw, He, Hsel; exact He2|].
+              change (sks sd) with (sks s') in Hsk2. change (ps sd) with (ps s') in Hx2.
+              repeat split; auto; try congruence; try lia.
+              eapply extends_trans; eauto.
+      * destruct f2 as [|f3]; [lia|].
+        destruct (param_child_index (cur s')) as [pi|] eqn:Epi.
+        -- destruct Hpci as [Hny Hyne]. destruct (first_child "{" ch) as [y|] eqn:Efy; [|congruence].
+           pose proof (first_child_in _ _ _ Efy) as [Hiny _].
+           pose proof (ncost_in y ch Hiny) as Hcy.
+           destruct (select_param f3 path lazy s' c y pi) as (s1 & Hsel & Hcore & Ht1 & Hpc1); auto.
+           { rewrite Hch'. exact Efx. }
+           { rewrite Hch'. exact Hny. }
+           destruct Hcore as (Hc1 & _ & Hcm1 & _ & Hsk1 & Hps1).
+           set (sd := descend s1 y) in *.
+           pose proof (IH y Hiny (pre ++ k) (Hch y Hiny) f3 sd eq_refl) as IHy.
+           change (cm sd) with (cm s1) in IHy. rewrite Hcm1 in IHy.
+           change (ps sd) with (ps s1) in IHy. change (pcnt sd) with (pcnt s1) in IHy.
+           rewrite Hps1, Hpc1 in IHy.
+           specialize (IHy Hlt' eq_refl Hpc' Ht1 ltac:(lia)). rewrite Hrest in IHy.
+           destruct (m2 y (c :: rest')) as [[l v2]|].
+           ++ destruct IHy as [tps' E]. exists tps'. rewrite Hw, He, Hsel, E.
+              rewrite Hps', addp_addp. reflexivity.
+           ++ destruct IHy as (f4 & s2 & He2 & Hf4 & Hsk2 & Hx2 & Ht2 & Hk2).
+              exists f4, s2. split; [rewrite Hw, He, Hsel; exact He2|].
+              change (sks sd) with (sks s1) in Hsk2. change (ps sd) with (ps s1) in Hx2. rewrite Hps1 in Hx2.
+              repeat split; auto; try congruence; try lia.
+              eapply extends_trans; eauto.
+        -- rewrite Hpci.
+           destruct (select_none f3 path lazy s' c) as (s1 & Hsel & Hcore & Ht1); auto.
+           { rewrite Hch'. exact Efx. }
+           destruct Hcore as (Hc1 & _ & Hcm1 & _ & Hsk1 & Hps1).
+           eapply (backs_step path lazy (S f1) PWalk s _ f3 PAfter s1 1 (List.length k + 4)).
+           ++ rewrite Hw, He, Hsel. reflexivity.
+           ++ apply backs_after; auto; try lia. apply cm_lt_nofound. lia.
+           ++ congruence.
+           ++ rewrite Hps1. exact Hx0.
+           ++ lia.
+           ++ lia.
+  - eapply (backs_step path lazy (S f1) PWalk s _ f1 _ s0 _ 1); [exact Hw|exact Hin|reflexivity|apply extends_refl|lia|lia].
+  - eapply (backs_step path lazy (S f1) PWalk s _ f1 _ s0 _ 1); [exact Hw|exact Hin|reflexivity|apply extends_refl|lia|lia].
+Qed.
+
+(* a result that is not a direct hit *)
+Definition nodirect2 (r : lres) : Prop :=
+  exists tn' tsr' ps' tps', r = Found tn' tsr' ps' tps' /\ (tsr' = false -> tn' = None).
+
+Definition m2_fuel (t : node) : nat := ncost t + 4.
+
+Theorem lbp_eq_m2 t path lazy fuel : pwf [] t -> m2_fuel t <= fuel ->
+  match m2 t path with
+  | Some (l, vals) => found_as (lookup_by_path fuel t path lazy [] []) l (addp lazy [] vals)
+  | None => nodirect2 (lookup_by_path fuel t path lazy [] [])
+  end.
+Proof.
+  intros Hwf Hf. unfold lookup_by_path, m2_fuel in *.
+  destruct path as [|c path].
+  - destruct t as [k r ch]. pose proof (pwf_inv _ _ _ _ Hwf) as (kt & Hne & Hk & Hok & _).
+    subst k. rewrite m2_eq, tokenize_render by (apply forallb_ptok_tok; exact Hok).
+    destruct kt as [|t0 kt]; [congruence|]. cbn [kmatch].
+    rewrite ncost_eq in Hf. destruct fuel as [|[|[|f]]]; try lia.
+    rewrite walk_ge by (simpl; lia).
+    set (s := init_st (Node (render (t0 :: kt)) r ch) [] []).
+    destruct (after_fail (S f) [] lazy s) as (s' & -> & Hc & Ht' & _).
+    + apply cmn_lt_nofound. change (cmn s) with 0. change (nkey (cur s)) with (render (t0 :: kt)).
+      rewrite render_cons_len. pose proof (render_tok_len_pos t0). lia.
+    + unfold tinv; simpl; auto.
+    + destruct Hc as (_ & _ & _ & _ & Hs & _). rewrite back_nil by (rewrite Hs; reflexivity).
+      do 4 eexists. split; [reflexivity|exact Ht'].
+  - pose proof (walk_m2 (c :: path) lazy t [] Hwf fuel (init_st t [] []) eq_refl) as H.
+    simpl cm in H. simpl skipn in H.
+    specialize (H ltac:(simpl; lia) eq_refl eq_refl ltac:(unfold tinv; simpl; auto) ltac:(lia)).
+    destruct (m2 t (c :: path)) as [[l vals]|]; [exact H|].
+    destruct H as (f' & s' & -> & Hf' & Hs & _ & Ht' & _). simpl in Hs.
+    destruct f' as [|f']; [lia|]. rewrite back_nil by exact Hs.
+    do 4 eexists. split; [reflexivity|exact Ht'].
+Qed.
+
+(* ------------------------------------------------------------------ *)
+(* M2 = S: candidates of a subtree                                      *)
+(* ------------------------------------------------------------------ *)
+Definition prep (kt : list token) (c : cand) : cand := {| pat := pat c; toks := kt ++ toks c |}.
+Definition own (r : option route) : list cand :=
+  match r with Some rt => [{| pat := rpat rt; toks := [] |}] | None => [] end.
+
+Fixpoint cands_of (n : node) : list cand :=
+  match n with
+  | Node k r ch => map (prep (tokenize k)) (own r ++ flat_map cands_of ch)
+  end.
+Definition below (r : option route) (ch : list node) : list cand := own r ++ flat_map cands_of ch.
+Definition cands (kt : list token) (r : option route) (ch : list node) : list cand := map (prep kt) (below r ch).
+
+Lemma cands_of_eq k r ch : cands_of (Node k r ch) = cands (tokenize k) r ch.
+Proof. reflexivity. Qed.
+
+Lemma prep_nil c : prep [] c = c.
+Proof. destruct c; reflexivity. Qed.
+Lemma cands_nil r ch : cands [] r ch = below r ch.
+Proof. unfold cands. rewrite (map_ext _ (fun c => c)) by apply prep_nil. apply map_id. Qed.
+
+Lemma select_nil : forall fuel s h vals, select fuel [] s h vals = None.
+Proof.
+  destruct fuel as [|fuel]; intros s h vals; [reflexivity|]. cbn [select]. destruct s as [|c r]; [reflexivity|].
+  simpl. unfold orelse. destruct (Ascii.eqb c "{" || Ascii.eqb c "*"); simpl; destruct (negb (Nat.eqb h 0)); reflexivity.
+Qed.
+
+Lemma match_nil_select fuel (cs : list cand) s h vals :
+  match cs with [] => None | c0 :: l => select fuel (c0 :: l) s h vals end = select fuel cs s h vals.
+Proof. destruct cs; auto. rewrite select_nil. reflexivity. Qed.
+
+(* advancing a candidate list whose members all start with the same token *)
+Lemma adv_static_cands_static c d kt r ch :
+  adv_static c (cands (TStatic d :: kt) r ch) = if Ascii.eqb c d then cands kt r ch else [].
+Proof.
+  unfold cands, adv_static. induction (below r ch) as [|k l IH]; simpl.
+  - destruct (Ascii.eqb c d); reflexivity.
+  - rewrite IH. destruct (Ascii.eqb c d); reflexivity.
+Qed.
+Lemma adv_static_cands_param c nm kt r ch : adv_static c (cands (TParam nm :: kt) r ch) = [].
+Proof. unfold cands, adv_static. induction (below r ch) as [|k l IH]; simpl; auto. Qed.
+Lemma adv_param_cands_static d kt r ch : adv_param (cands (TStatic d :: kt) r ch) = [].
+Proof. unfold cands, adv_param. induction (below r ch) as [|k l IH]; simpl; auto. Qed.
+Lemma adv_param_cands_param nm kt r ch : adv_param (cands (TParam nm :: kt) r ch) = cands kt r ch.
+Proof. unfold cands, adv_param. induction (below r ch) as [|k l IH]; simpl; auto. rewrite IH. reflexivity. Qed.
+Lemma adv_catch_cands_static d kt r ch : adv_catch (cands (TStatic d :: kt) r ch) = [].
+Proof. unfold cands, adv_catch. induction (below r ch) as [|k l IH]; simpl; auto. Qed.
+Lemma adv_catch_cands_param nm kt r ch : adv_catch (cands (TParam nm :: kt) r ch) = [].
+Proof. unfold cands, adv_catch. induction (below r ch) as [|k l IH]; simpl; auto. Qed.
+
+Lemma leaf_cands_cons t kt r ch : leaf (cands (t :: kt) r ch) = None.
+Proof. unfold cands, leaf. induction (below r ch) as [|k l IH]; simpl; auto. Qed.
+
+Lemma sbyte_split c : sbyte c = true -> Ascii.eqb c "{" = false /\ Ascii.eqb c "*" = false.
+Proof. unfold sbyte. intros H. apply andb_prop in H. destruct H as [H1 H2]. apply negb_true_iff in H1, H2. auto. Qed.
+
+Lemma sbyte_false c : sbyte c = false -> Ascii.eqb c "{" || Ascii.eqb c "*" = true.
+Proof. unfold sbyte. destruct (Ascii.eqb c "{"), (Ascii.eqb c "*"); simpl; auto. Qed.
+
+Lemma select_cands_short f t kt r ch vals : select (S f) (cands (t :: kt) r ch) [] 0 vals = None.
+Proof. cbn [select]. rewrite leaf_cands_cons. reflexivity. Qed.
+
+Lemma select_cands_static f d kt r ch c p' vals :
+  select (S f) (cands (TStatic d :: kt) r ch) (c :: p') 0 vals =
+  if Ascii.eqb d c && sbyte c then select f (cands kt r ch) p' 0 vals else None.
+Proof.
+  cbn [select]. rewrite adv_param_cands_static, adv_catch_cands_static, adv_static_cands_static.
+  cbn [Nat.eqb negb pred]. unfold orelse. rewrite (Ascii.eqb_sym d c).
+  destruct (sbyte c) eqn:Es.
+  - destruct (sbyte_split c Es) as [-> ->]. cbn [orb]. rewrite andb_true_r.
+    destruct (Ascii.eqb c d); [|reflexivity].
+    rewrite match_nil_select. destruct (select f (cands kt r ch) p' 0 vals); reflexivity.
+  - rewrite (sbyte_false c Es). rewrite andb_false_r. reflexivity.
+Qed.
+
+Lemma select_cands_param f nm kt r ch c p' vals :
+  select (S f) (cands (TParam nm :: kt) r ch) (c :: p') 0 vals =
+  match seg is_slash (c :: p') with
+  | [] => None
+  | v => select f (cands kt r ch) (skipn (List.length v) (c :: p')) 0 (v :: vals)
+  end.
+Proof.
+  cbn [select]. rewrite adv_param_cands_param, adv_catch_cands_param, adv_static_cands_param.
+  cbn [Nat.eqb negb]. unfold orelse.
+  assert ((if Ascii.eqb c "{" || Ascii.eqb c "*" then None else @None (bytes * list bytes)) = None) as ->
+    by (destruct (Ascii.eqb c "{" || Ascii.eqb c "*"); reflexivity).
+  change (seg (fun x : ascii => Ascii.eqb x "/") (c :: p')) with (seg is_slash (c :: p')).
+  destruct (cands kt r ch) as [|k0 l] eqn:E.
+  - destruct (seg is_slash (c :: p')); [reflexivity|]. rewrite select_nil. reflexivity.
+  - rewrite <- E. destruct (seg is_slash (c :: p')) as [|v0 v]; [reflexivity|].
+    replace (0 - List.length (v0 :: v)) with 0 by lia.
+    destruct (select f (cands kt r ch) _ 0 _); reflexivity.
+Qed.
+
+(* ---- advancing the candidates below a node ---- *)
+Lemma adv_static_app c a b : adv_static c (a ++ b) = adv_static c a ++ adv_static c b.
+Proof. unfold adv_static. apply flat_map_app. Qed.
+Lemma adv_param_app a b : adv_param (a ++ b) = adv_param a ++ adv_param b.
+Proof. unfold adv_param. apply flat_map_app. Qed.
+Lemma adv_catch_app a b : adv_catch (a ++ b) = adv_catch a ++ adv_catch b.
+Proof. unfold adv_catch. apply flat_map_app. Qed.
+
+Lemma adv_static_flat c {A} (g : A -> list cand) l :
+  adv_static c (flat_map g l) = flat_map (fun x => adv_static c (g x)) l.
+Proof. induction l as [|x l IH]; simpl; auto. rewrite adv_static_app, IH. reflexivity. Qed.
+Lemma adv_param_flat {A} (g : A -> list cand) l :
+  adv_param (flat_map g l) = flat_map (fun x => adv_param (g x)) l.
+Proof. induction l as [|x l IH]; simpl; auto. rewrite adv_param_app, IH. reflexivity. Qed.
+Lemma adv_catch_flat {A} (g : A -> list cand) l :
+  adv_catch (flat_map g l) = flat_map (fun x => adv_catch (g x)) l.
+Proof. induction l as [|x l IH]; simpl; auto. rewrite adv_catch_app, IH. reflexivity. Qed.
+
+Lemma flat_map_nil {A B} (f : A -> list B) l : (forall x, In x l -> f x = []) -> flat_map f l = [].
+Proof. induction l as [|x l IH]; simpl; auto. intros H. rewrite (H x) by auto. apply IH. auto. Qed.
+
+Lemma flat_map_first (f g : node -> list cand) c ch :
+  NoDup (heads ch) ->
+  (forall x, In x ch -> f x = if starts_with c (nkey x) then g x else []) ->
+  flat_map f ch = match first_child c ch with Some x => g x | None => [] end.
+Proof.
+  induction ch as [|x ch IH]; intros Hnd Hf; simpl; auto.
+  inversion Hnd as [|? ? Hni Hnd']; subst.
+  rewrite (Hf x) by (left; reflexivity). destruct (starts_with c (nkey x)) eqn:E.
+  - rewrite flat_map_nil; [apply app_nil_r|]. intros y Hy. rewrite (Hf y) by (right; exact Hy).
+    destruct (starts_with c (nkey y)) eqn:Ey; auto. exfalso. apply Hni.
+    apply starts_with_hd in E, Ey. rewrite E, <- Ey. exact (in_map (fun c0 => hd_byte (nkey c0)) ch y Hy).
+  - simpl. apply IH; auto. intros y Hy. apply Hf. right; exact Hy.
+Qed.
+
+Definition tl_cands (x : node) : list cand := cands (tl (tokenize (nkey x))) (nroute x) (nchildren x).
+
+Lemma pwf_tokens pre x : pwf pre x ->
+  exists t kt, tokenize (nkey x) = t :: kt /\ nkey x = render (t :: kt) /\ forallb ptok_ok (t :: kt) = true.
+Proof.
+  destruct x as [k r ch]. intros H. apply pwf_inv in H. destruct H as (kt & Hne & -> & Hok & _).
+  destruct kt as [|t kt]; [congruence|]. exists t, kt. cbn [nkey]. rewrite tokenize_render by (apply forallb_ptok_tok; auto). auto.
+Qed.
+
+Lemma cands_of_tokens x : cands_of x = cands (tokenize (nkey x)) (nroute x) (nchildren x).
+Proof. destruct x; reflexivity. Qed.
+
+Lemma adv_static_child c pre x : pwf pre x -> sbyte c = true ->
+  adv_static c (cands_of x) = if starts_with c (nkey x) then tl_cands x else [].
+Proof.
+  intros Hwf Hc. destruct (pwf_tokens _ _ Hwf) as (t & kt & Ht & Hk & Hok).
+  unfold tl_cands. rewrite cands_of_tokens, Ht, Hk. simpl tl.
+  simpl in Hok. apply andb_prop in Hok. destruct Hok as [Hok _].
+  destruct t as [d|nm|nm]; simpl in Hok; [| |discriminate].
+  - rewrite adv_static_cands_static. change (render (TStatic d :: kt)) with (d :: render kt).
+    cbn [starts_with]. rewrite (Ascii.eqb_sym d c). reflexivity.
+  - rewrite adv_static_cands_param. change (render (TParam nm :: kt)) with ("{" :: (nm ++ ["}"]) ++ render kt).
+    cbn [starts_with]. destruct (sbyte_split c Hc) as [H1 _].
+    rewrite Ascii.eqb_sym, H1. reflexivity.
+Qed.
+
+Lemma adv_param_child pre x : pwf pre x ->
+  adv_param (cands_of x) = if starts_with "{" (nkey x) then tl_cands x else [].
+Proof.
+  intros Hwf. destruct (pwf_tokens _ _ Hwf) as (t & kt & Ht & Hk & Hok).
+  unfold tl_cands. rewrite cands_of_tokens, Ht, Hk. simpl tl.
+  simpl in Hok. apply andb_prop in Hok. destruct Hok as [Hok _].
+  destruct t as [d|nm|nm]; simpl in Hok; [| |discriminate].
+  - rewrite adv_param_cands_static. change (render (TStatic d :: kt)) with (d :: render kt).
+    cbn [starts_with]. destruct (sbyte_split d Hok) as [H1 _]. rewrite H1. reflexivity.
+  - rewrite adv_param_cands_param. reflexivity.
+Qed.
+
+Lemma adv_catch_child pre x : pwf pre x -> adv_catch (cands_of x) = [].
+Proof.
+  intros Hwf. destruct (pwf_tokens _ _ Hwf) as (t & kt & Ht & Hk & Hok).
+  rewrite cands_of_tokens, Ht.
+  simpl in Hok. apply andb_prop in Hok. destruct Hok as [Hok _].
+  destruct t as [d|nm|nm]; simpl in Hok; [| |discriminate].
+  - apply adv_catch_cands_static.
+  - apply adv_catch_cands_param.
+Qed.
